@@ -30,6 +30,8 @@ func init() {
 		Explain: "Per-peer state reclamation decided as an inventory with obligations: (R13.1) every struct field of the module that is a map keyed by peer.ID (directly or as the inner map of a map keyed by topic/message/IP) is enumerated from the type information on every run; each needs a reclaim site (delete of the key / of the inner entry, or replacement of the map) that is reachable in the VTA call graph from a departure root (handleDeadPeers, onClosedIncomingStream, the stream handler's deferred cleanup, the blacklist arm's callees), a periodic root (heartbeat, scorer/gater/backoff/time-cache background loops), a completion root (DeliverMessage/RejectMessage fan-out, for message-scoped maps) or its consumer (pending/queue-like maps); a new per-peer field without one fails; named exemptions: direct peers (operator configuration), blacklist state (policy); (R13.2) guard symmetry: the feature(...) guards required on every call path to a reclaimer are a subset of those on the paths to every creator of the same field (otherwise entries created for some protocol versions are never reclaimed); (R13.3) entries are created only for peers that can be reclaimed: the pending-control buffer is written only behind a successful lookup of the peer's queue, and mesh admission requires gs.peers membership (shared R07.5, known finding F8); (R13.4) protection pairing: every removal of a peer from a mesh map reaches tracer.Prune or tagTracer.untagMeshPeer for that topic (connection-manager protection released), the tag tracer's Graft/Prune map to Protect/Unprotect with the same tag; (R13.5) stream bookkeeping: the stream handler's deferred cleanup removes its inboundStreams entry when it is the current one and reports the closed stream iff it reported the new one; the extension state's closed-stream handlers delete their entries; router/scorer/gater departure handlers (shared R07.5, R10.4, R05.6) remove the peer; (R13.6) the gater deletes a peer's entry whenever its outbound stream closed, independently of the connection count it shares with other peers behind the same IP. (R13.7) every RejectMessage after ValidateMessage uses a reason on which tagTracer.RejectMessage releases the near-first entry. NOT decided: that retention periods elapse and sweeps run (timing); entries re-created by late validation callbacks after departure.",
 		Assume:  []string{"VTA call graph over-approximates calls through stored function values", "roots are invoked by the event loop / their goroutines as analysed under C05/C14"},
 		Mutants: []Mutant{
+			{Name: "partial-release-behind-handshake", File: "extensions.go", Old: "\tif es.myExtensions.PartialMessages {\n\t\tes.partialMessagesExtension.OnClosedOutboundStream(id)", New: "\tif es.myExtensions.PartialMessages && es.peerExtensions[id].PartialMessages {\n\t\tes.partialMessagesExtension.OnClosedOutboundStream(id)", Expect: "R13.8"},
+			{Name: "partial-release-behind-feature", File: "gossipsub.go", Old: "\tgs.extensions.OnClosedOutboundStream(p)\n\tdelete(gs.peers, p)", New: "\tif gs.feature(GossipSubFeatureExtensions, gs.peers[p]) {\n\t\tgs.extensions.OnClosedOutboundStream(p)\n\t}\n\tdelete(gs.peers, p)", Expect: "R13.8"},
 			{Name: "post-validation-drop-keeps-nearfirst", File: "pubsub.go", Old: "\t\t\t\tp.logger.Debug(\"dropping validated message from blacklisted peer\", \"peer\", msg.ReceivedFrom)\n\t\t\t\tp.tracer.RejectMessage(msg, RejectValidationIgnored)\n", New: "\t\t\t\tp.logger.Debug(\"dropping validated message from blacklisted peer\", \"peer\", msg.ReceivedFrom)\n\t\t\t\tp.tracer.RejectMessage(msg, RejectBlacklstedPeer)\n", Expect: "R13.7"},
 			{Name: "tagtracer-ignores-ignored", File: "tag_tracer.go", Old: "\tcase RejectValidationIgnored:\n\t\tfallthrough\n", New: "", Expect: "R13.7"},
 			{Name: "closed-stream-keeps-control-buffer", File: "gossipsub.go", Old: "\tdelete(gs.gossip, p)\n\tdelete(gs.control, p)\n\tdelete(gs.outbound, p)", New: "\tdelete(gs.gossip, p)\n\tdelete(gs.outbound, p)", Expect: "R13.5"},
@@ -453,6 +455,7 @@ func runC13(c *RuleCtx) {
 		}
 	}
 	checkValidationStateReleased(c)
+	checkPartialStateReleaseUnguarded(c)
 	c.Min["R13.1"] = 30
 	c.Min["R13.2"] = 15
 	c.Min["R13.3"] = 4
@@ -684,4 +687,73 @@ func checkValidationStateReleased(c *RuleCtx) {
 		c.Undecided("R13.7", "post-validation rejections", "inventory", nil, "fewer rejection sites after ValidateMessage than known: "+itoa(n))
 	}
 	c.Min["R13.7"] = 6
+}
+
+// R13.8: the partial-messages extension creates per-peer state (peerState of every live group, the peer-initiated
+// group counters) from subscription flags and RPCs, so releasing it on departure must not depend on what the peer
+// negotiated or on handshake entries that the peer's other stream may already have released: along the call chain
+// from the router's departure hook to the extension's OnClosedOutboundStream no call is behind a condition that
+// reads the handshake maps or the protocol feature table.
+func checkPartialStateReleaseUnguarded(c *RuleCtx) {
+	p := c.P
+	chain := []struct{ fn, callee string }{
+		{"(*GossipSubRouter).OnClosedOutboundStream", "(*extensionsState).OnClosedOutboundStream"},
+		{"(*extensionsState).OnClosedOutboundStream", "(*extensionsState).extensionsOnClosedOutboundStream"},
+		{"(*extensionsState).extensionsOnClosedOutboundStream", "OnClosedOutboundStream"},
+	}
+	forbidden := func(v *V) (bool, string) {
+		why := ""
+		v.Has(func(x *V) bool {
+			switch {
+			case x.IsField("extensionsState.peerExtensions"):
+				why = "the received-handshake map (released when the peer's own stream closes)"
+			case x.IsField("extensionsState.sentExtensions"):
+				why = "the sent-handshake map"
+			case x.IsCall(fnFeature):
+				why = "the protocol feature table"
+			}
+			return why != ""
+		})
+		return why != "", why
+	}
+	n := 0
+	for _, link := range chain {
+		f := p.Fn(link.fn)
+		if f == nil {
+			// the chain may have been shortened (helper inlined): the remaining links still apply
+			continue
+		}
+		g := p.Graph(f)
+		for _, cs := range p.FuncCalls(f, false) {
+			if cs.Name != link.callee && !(link.callee == "OnClosedOutboundStream" && strings.HasSuffix(cs.Name, ".OnClosedOutboundStream") && strings.Contains(cs.Name, "artial")) {
+				continue
+			}
+			n++
+			pt, ok := g.Locate(cs.Call)
+			if !ok {
+				c.Undecided("R13.8", f.Name, "release call", cs.Call, "not located")
+				continue
+			}
+			bad := ""
+			for _, blk := range g.C.Blocks {
+				cond := g.condOf[blk]
+				if cond == nil || !blk.Live {
+					continue
+				}
+				for s := 0; s < 2; s++ {
+					if !g.Dominated(pt, []Edge{{blk, s}}) {
+						continue
+					}
+					if isBad, why := forbidden(p.R(f).Val(cond)); isBad {
+						bad = "the call is behind `" + p.Src(cond) + "`, which reads " + why
+					}
+				}
+			}
+			c.Check(bad == "", "R13.8", f.Name, "partial-message state released whatever was negotiated ("+shortFn(cs.Name)+")", cs.Call, "no handshake or feature condition in front of the release", "per-peer partial-message state is created from subscription flags and RPCs, but its release is conditional: "+bad+"; a peer whose own stream closed first, or that never completed the handshake, keeps its entries in every live group")
+		}
+	}
+	if n < 2 {
+		c.Undecided("R13.8", "partial-message release chain", "inventory", nil, "the chain from the router's departure hook to the extension's OnClosedOutboundStream was not found: "+itoa(n)+" links")
+	}
+	c.Min["R13.8"] = 2
 }
